@@ -3,16 +3,59 @@ Runs torrentfile.edit.edit_torrent on one metafile with one request under one
 injected fault, in a fresh interpreter.  usage:
     edit_fault.py <metafile> <request-json> <fault-json> <trace-out>
 exit status: 0 edit returned, 3 edit raised (exception class on stdout), 137/other: killed.
-The filesystem events the edit performs on paths in the metafile's directory are
-written to <trace-out> as JSON lines (flushed with os.write so they survive a kill).
+The filesystem events the edit performs on paths in the metafile's directory (PM = the metafile, PT:<name> = anything
+else beside it) and directly in the system temp directory (PX:<name>; tempfile.gettempdir(), i.e. $TMPDIR -- it may lie
+on ANOTHER filesystem than the metafile) are written to <trace-out> as JSON lines (flushed with os.write so they
+survive a kill).
+
+Observed (and fault-injectable) operations:
+  open          builtins.open / io.open of a tracked path, os.open of a tracked path (mode derived from the flags: "w" only
+                with O_TRUNC, "a" with O_APPEND, "r+" for a writable descriptor that does NOT truncate); a file object made
+                from a tracked DESCRIPTOR (open(fd, "wb")) is tracked as well
+  write / close on file objects opened for writing; os.write on a tracked descriptor
+  sendfile      os.sendfile / os.copy_file_range / os.splice between descriptors of which one is tracked (the data path of
+                shutil.copyfile, hence of shutil.move across filesystems, which bypasses file.write)
+  replace rename remove link symlink truncate exists encode
+fault (JSON): kind none | raise (exc PermissionError / ENOSPC, when before|after) | kill (when before|after) | shortwrite
+(write and sendfile: frac of the bytes, then raise|kill) at event_index; rlimit (RLIMIT_FSIZE = bytes; ignore_signal);
+"via": "cli" runs `torrentfile edit` through cli.execute instead of edit.edit_torrent.
+Request values {"unencodable": kind}: float, object, set, surrogate (a str with a lone surrogate, as sys.argv gives for a
+Latin-1 byte), surrogate-list, surrogate-words.
 """
 import builtins
 import errno
+import io
 import json
 import os
 import resource
 import signal
 import sys
+import tempfile
+
+SURROGATE = "caf\udce9 cr\udce8me"
+
+CLI_FLAG = {"comment": "--comment", "source": "--source", "announce": "--tracker", "url-list": "--web-seed",
+            "httpseeds": "--http-seed", "private": "--private"}
+
+
+def odd_value(kind):
+    return {"float": 1.5, "object": object(), "set": {1, 2}, "surrogate": SURROGATE,
+            "surrogate-list": ["http://ok/a", "http://t/\udce9"], "surrogate-words": "http://ok/a http://t/\udcff\udcfe"}[kind]
+
+
+def cli_argv(metafile, args):
+    argv = ["edit", metafile]
+    for k, v in args.items():
+        if v is None:
+            continue
+        if k == "private":
+            if v:
+                argv.append("--private")
+        elif k in ("comment", "source"):
+            argv += [CLI_FLAG[k], v if isinstance(v, str) else " ".join(v)]
+        else:
+            argv += [CLI_FLAG[k]] + (list(v) if isinstance(v, list) else v.split())
+    return argv
 
 
 def main():
@@ -22,26 +65,57 @@ def main():
     args = {}
     for k, v in req.items():
         if isinstance(v, dict) and "unencodable" in v:
-            args[k] = {"float": 1.5, "object": object(), "set": {1, 2}}[v["unencodable"]]
+            args[k] = odd_value(v["unencodable"])
+        elif isinstance(v, list) and any(isinstance(x, dict) and "unencodable" in x for x in v):
+            args[k] = [odd_value(x["unencodable"]) if isinstance(x, dict) and "unencodable" in x else x for x in v]
         else:
             args[k] = v
     base = os.path.dirname(os.path.abspath(metafile))
+    tdir = os.path.abspath(tempfile.gettempdir())
+    if tdir == base:
+        tdir = None
     tfd = os.open(trace_out, os.O_WRONLY | os.O_CREAT | os.O_TRUNC)
     counter = [0]
     active = [True]
     tracing = fault["kind"] != "rlimit"      # a file size limit would hit the trace file too
+    fds = {}                                  # descriptor -> (symbol, (st_dev, st_ino))
 
     def sym(p):
         try:
             p = os.path.abspath(os.fspath(p))
         except TypeError:
             return None
-        if os.path.dirname(p) != base and p != base:
-            return None
-        return "PM" if p == os.path.abspath(metafile) else "PT:" + os.path.basename(p)
+        if isinstance(p, bytes):
+            p = os.fsdecode(p)
+        if os.path.dirname(p) == base or p == base:
+            return "PM" if p == os.path.abspath(metafile) else "PT:" + os.path.basename(p)
+        if tdir is not None and (os.path.dirname(p) == tdir or p == tdir):
+            return "PX:" + (os.path.basename(p) if p != tdir else ".")
+        return None
 
-    def event(kind, *paths, size=None):
-        """returns an action for this event: None | ('raise', exc) | ('kill',) | ('short', then)"""
+    def note_fd(fd, s):
+        try:
+            st = os.fstat(fd)
+            fds[fd] = (s, (st.st_dev, st.st_ino))
+        except OSError:
+            pass
+
+    def fd_sym(fd):
+        if not isinstance(fd, int) or isinstance(fd, bool) or fd not in fds:
+            return None
+        s, ident = fds[fd]
+        try:
+            st = os.fstat(fd)
+        except OSError:
+            fds.pop(fd, None)
+            return None
+        if (st.st_dev, st.st_ino) != ident:      # the number was closed and handed out again for another file
+            fds.pop(fd, None)
+            return None
+        return s
+
+    def event(kind, *paths, size=None, more=None):
+        """returns the fault to apply at this event, or None"""
         if not active[0]:
             return None
         i = counter[0]
@@ -50,10 +124,15 @@ def main():
         if size is not None:
             rec["size"] = size
         if tracing:
-            os.write(tfd, (json.dumps(rec) + "\n").encode())
+            real_os_write(tfd, (json.dumps(rec) + "\n").encode())
+            if more:
+                real_os_write(tfd, (json.dumps(more) + "\n").encode())
         if fault.get("event_index") == i:
             return fault
         return None
+
+    def injected():
+        return OSError(errno.ENOSPC, "injected: short write")
 
     def act(f, when):
         if f is None or f.get("when", "before") != when:
@@ -66,6 +145,7 @@ def main():
             raise OSError(errno.ENOSPC, "injected: no space left on device")
 
     real_open = builtins.open
+    real_os_open, real_os_write, real_os_close = os.open, os.write, os.close
 
     class WProxy:
         def __init__(self, fobj, s):
@@ -81,17 +161,25 @@ def main():
                     self._f.flush()
                 if f.get("then") == "kill":
                     os._exit(137)
-                raise OSError(errno.ENOSPC, "injected: short write")
+                raise injected()
             act(f, "before")
             n = self._f.write(data)
             act(f, "after")
             return n
+
+        def writelines(self, lines):
+            for x in lines:
+                self.write(x)
 
         def close(self):
             if self._f.closed:
                 return
             f = event("close", self._s)
             act(f, "before")
+            try:
+                fds.pop(self._f.fileno(), None)
+            except (OSError, ValueError):
+                pass
             self._f.close()
             act(f, "after")
 
@@ -102,22 +190,107 @@ def main():
             self.close()
             return False
 
+        def __iter__(self):
+            return iter(self._f)
+
         def __getattr__(self, name):
             return getattr(self._f, name)
 
     def open_(file, mode="r", *a, **k):
+        if isinstance(file, int) and not isinstance(file, bool):
+            s = fd_sym(file)             # a file object over a descriptor that os.open returned for a tracked path
+            if s is None:
+                return real_open(file, mode, *a, **k)
+            fobj = real_open(file, mode, *a, **k)
+            return WProxy(fobj, s) if any(c in mode for c in "wax+") else fobj
         s = sym(file) if isinstance(file, (str, bytes, os.PathLike)) else None
         if s is None:
             return real_open(file, mode, *a, **k)
-        f = event("open", s, size=None)
-        if tracing:
-            os.write(tfd, (json.dumps({"mode": mode, "extra": bool(a or k)}) + "\n").encode())
+        f = event("open", s, size=None, more={"mode": mode, "extra": bool(a or k)})
         act(f, "before")
         fobj = real_open(file, mode, *a, **k)
+        try:
+            note_fd(fobj.fileno(), s if s != "PX:." else "PX:" + os.path.basename(str(getattr(fobj, "name", "?"))))
+        except (OSError, ValueError, AttributeError):
+            pass
         act(f, "after")
         if any(c in mode for c in "wax+"):
             return WProxy(fobj, s)
         return fobj
+
+    def os_open(path, flags, mode=0o777, *a, **k):
+        s = sym(path) if isinstance(path, (str, bytes, os.PathLike)) and not k.get("dir_fd") else None
+        if s is None:
+            return real_os_open(path, flags, mode, *a, **k)
+        acc = flags & os.O_ACCMODE
+        if acc == os.O_RDONLY:
+            m = "r"
+        elif flags & os.O_TRUNC:
+            m = "w"
+        elif flags & os.O_APPEND:
+            m = "a"
+        else:
+            m = "r+"                      # writable and NOT truncating: old bytes beyond what is written stay
+        f = event("open", s, more={"mode": m, "extra": False, "lowlevel": True, "flags": flags})
+        act(f, "before")
+        fd = real_os_open(path, flags, mode, *a, **k)
+        note_fd(fd, s)
+        act(f, "after")
+        return fd
+
+    def os_write(fd, data):
+        s = fd_sym(fd)
+        if s is None or fd == tfd:
+            return real_os_write(fd, data)
+        f = event("write", s, size=len(data))
+        if f and f["kind"] == "shortwrite":
+            real_os_write(fd, bytes(data)[:int(len(data) * f.get("frac", 0.5))])
+            if f.get("then") == "kill":
+                os._exit(137)
+            raise injected()
+        act(f, "before")
+        n = real_os_write(fd, data)
+        act(f, "after")
+        return n
+
+    def os_close(fd):
+        s = fd_sym(fd)
+        if s is None or fd == tfd:
+            return real_os_close(fd)
+        f = event("close", s)
+        act(f, "before")
+        fds.pop(fd, None)
+        real_os_close(fd)
+        act(f, "after")
+
+    def wrap_fdcopy(name, real, out_pos, in_pos, count_pos):
+        """os.sendfile(out, in, offset, count) / os.copy_file_range(src, dst, count) / os.splice(src, dst, count)"""
+        def fn(*a, **k):
+            so = fd_sym(a[out_pos]) if len(a) > out_pos else None
+            si = fd_sym(a[in_pos]) if len(a) > in_pos else None
+            if so is None and si is None:
+                return real(*a, **k)
+            count = a[count_pos] if len(a) > count_pos and isinstance(a[count_pos], int) else None
+            f = event("sendfile", so, si, size=count, more={"call": name})
+            if f and f["kind"] == "shortwrite":
+                n = int((count or 0) * f.get("frac", 0.5))
+                try:
+                    avail = os.fstat(a[in_pos]).st_size
+                    n = min(n, int(avail * f.get("frac", 0.5)))
+                except OSError:
+                    pass
+                if n > 0:
+                    b = list(a)
+                    b[count_pos] = n
+                    real(*b, **k)
+                if f.get("then") == "kill":
+                    os._exit(137)
+                raise injected()
+            act(f, "before")
+            out = real(*a, **k)
+            act(f, "after")
+            return out
+        return fn
 
     def wrap2(name, real):
         def fn(a, b, *r, **k):
@@ -133,7 +306,7 @@ def main():
 
     def wrap1(name, real):
         def fn(a, *r, **k):
-            sa = sym(a)
+            sa = fd_sym(a) if isinstance(a, int) else sym(a)
             if sa is None:
                 return real(a, *r, **k)
             f = event(name, sa)
@@ -150,12 +323,28 @@ def main():
 
     import pyben
     import importlib
+    import shutil  # noqa: F401  (imported before the patches so that its feature tests see the real os)
     editmod = importlib.import_module("torrentfile.edit")
+    climod = importlib.import_module("torrentfile.cli") if fault.get("via") == "cli" else None
     builtins.open = open_
+    io.open = open_
+    os.open = os_open
+    os.write = os_write
+    os.close = os_close
     os.replace = wrap2("replace", os.replace)
     os.rename = wrap2("rename", os.rename)
+    os.link = wrap2("link", os.link)
+    os.symlink = wrap2("symlink", os.symlink)
     os.remove = wrap1("remove", os.remove)
     os.unlink = wrap1("remove", os.unlink)
+    os.truncate = wrap1("truncate", os.truncate)
+    os.ftruncate = wrap1("truncate", os.ftruncate)
+    if hasattr(os, "sendfile"):
+        os.sendfile = wrap_fdcopy("sendfile", os.sendfile, 0, 1, 3)
+    if hasattr(os, "copy_file_range"):
+        os.copy_file_range = wrap_fdcopy("copy_file_range", os.copy_file_range, 1, 0, 2)
+    if hasattr(os, "splice"):
+        os.splice = wrap_fdcopy("splice", os.splice, 1, 0, 2)
     real_exists = os.path.exists
 
     def exists(p):
@@ -172,10 +361,17 @@ def main():
         return real_dumps(obj)
     pyben.dumps = dumps
     try:
-        editmod.edit_torrent(metafile, args)
+        if climod is not None:
+            sink = io.StringIO()
+            import contextlib
+            with contextlib.redirect_stdout(sink), contextlib.redirect_stderr(sink):
+                climod.execute(cli_argv(metafile, args))
+        else:
+            editmod.edit_torrent(metafile, args)
     except BaseException as e:  # noqa
         active[0] = False
-        print(type(e).__name__, str(e)[:200])
+        sys.stdout = sys.__stdout__
+        print(type(e).__name__, ascii(str(e))[:200])
         sys.stdout.flush()
         os._exit(3)
     os._exit(0)
